@@ -11,10 +11,11 @@ Section DapProofs.
   Variable fin : cpu -> bool.
   Variable step_over : cpu -> cpu.
   Variable step_out : cpu -> cpu.
+  Variable reset_lcp : bool.
 
   Notation st := (st cpu).
-  Notation step_act := (step_act cpu pc step fin step_over step_out).
-  Notation run := (run cpu pc step fin step_over step_out).
+  Notation step_act := (step_act cpu pc step fin step_over step_out reset_lcp).
+  Notation run := (run cpu pc step fin step_over step_out reset_lcp).
   Notation Inv := (Inv cpu pc).
   Notation init := (@init cpu).
 
@@ -238,8 +239,8 @@ Section DapProofs.
   Qed.
 
   (* ------------------------------------------------------------------ breakpoints (repaired protocol) *)
-  Notation bp_ok := (bp_ok cpu pc step fin step_over step_out).
-  Notation disciplined := (disciplined cpu pc step fin step_over step_out).
+  Notation bp_ok := (bp_ok cpu pc step fin step_over step_out reset_lcp).
+  Notation disciplined := (disciplined cpu pc step fin step_over step_out reset_lcp).
   Notation no_self_loop := (no_self_loop cpu pc step fin).
   Notation in_step := (in_step cpu).
 
@@ -288,7 +289,7 @@ Section DapProofs.
   Proof. destruct r; simpl; intros; auto using Bool.andb_false_r. Qed.
 
   Lemma K_step : forall a s s' o seen,
-    no_self_loop -> K s seen -> step_ok a s -> step_act StateHeld a s = Some (s', o) ->
+    (reset_lcp = false -> no_self_loop) -> K s seen -> step_ok a s -> step_act StateHeld a s = Some (s', o) ->
     violated a s seen = false /\ K s' (seen_next a s s' seen).
   Proof.
     intros a s s' o seen NSL HK Hok H.
@@ -325,7 +326,8 @@ Section DapProofs.
       + split.
         { destruct (hit bps0 (pc cp0)) eqn:Eh; simpl; auto. rewrite K1; auto. }
         (split; [exact HG'|]); kcase K1 K2 K3 K4 K6.
-        exfalso. apply (proj1 (Z.eqb_neq _ _) (NSL cp0 Ef)). rewrite K5 in *; auto. congruence.
+        destruct reset_lcp; [discriminate|].
+        exfalso. apply (proj1 (Z.eqb_neq _ _) (NSL eq_refl cp0 Ef)). rewrite K5 in *; auto. congruence.
     - (* S_req *) 
       break_in H; inv_some; destruct r; simpl in *; rewrite ?stopped_false, ?Bool.andb_false_r; (split; [reflexivity|]); (split; [exact HG'|]); kcase K1 K2 K3 K4 K6.
     - break_in H; inv_some; simpl; rewrite ?stopped_false, ?Bool.andb_false_r; (split; [reflexivity|]); (split; [exact HG'|]); kcase K1 K2 K3 K4 K6.
@@ -355,7 +357,7 @@ Section DapProofs.
   Qed.
 
   Lemma bp_run : forall tr s seen,
-    no_self_loop -> K s seen -> disciplined StateHeld tr s = true -> bp_ok StateHeld tr s seen = true.
+    (reset_lcp = false -> no_self_loop) -> K s seen -> disciplined StateHeld tr s = true -> bp_ok StateHeld tr s seen = true.
   Proof.
     induction tr; simpl; intros s seen NSL HK HD; auto.
     destruct (step_act StateHeld a s) as [[s1 o]|] eqn:E; auto.
@@ -373,7 +375,7 @@ Section DapProofs.
   Qed.
 
   Theorem bp_no_overrun : forall c0 tr,
-    no_self_loop -> disciplined StateHeld tr (init c0) = true -> bp_ok StateHeld tr (init c0) false = true.
+    (reset_lcp = false -> no_self_loop) -> disciplined StateHeld tr (init c0) = true -> bp_ok StateHeld tr (init c0) false = true.
   Proof. intros. apply bp_run; auto. apply K_init. Qed.
 End DapProofs.
 
@@ -387,13 +389,20 @@ Definition self_loop_schedule : list action :=
 
 Theorem bp_self_loop_refuted :
   exists (cpu : Type) (pc : cpu -> Z) (step : cpu -> cpu) (fin : cpu -> bool) (so sout : cpu -> cpu) (c0 : cpu),
-    disciplined cpu pc step fin so sout StateHeld self_loop_schedule (init c0) = true /\
-    run cpu pc step fin so sout StateHeld self_loop_schedule (init c0) <> None /\
-    bp_ok cpu pc step fin so sout StateHeld self_loop_schedule (init c0) false = false.
+    disciplined cpu pc step fin so sout false StateHeld self_loop_schedule (init c0) = true /\
+    run cpu pc step fin so sout false StateHeld self_loop_schedule (init c0) <> None /\
+    bp_ok cpu pc step fin so sout false StateHeld self_loop_schedule (init c0) false = false.
 Proof.
   exists Z, (fun _ => 7), Z.succ, (fun _ => false), Z.succ, Z.succ, 0.
   vm_compute. repeat split; discriminate.
 Qed.
+
+(* the current adapter (protocol and last_checked_pc handling as read off the source): no guard on the program *)
+Lemma bp_no_overrun_adapter : forall (cpu : Type) (pc : cpu -> Z) (step : cpu -> cpu) (fin : cpu -> bool)
+    (step_over step_out : cpu -> cpu) (c0 : cpu) (tr : list action),
+  disciplined cpu pc step fin step_over step_out adapter_reset_lcp adapter_protocol tr (init c0) = true ->
+  bp_ok cpu pc step fin step_over step_out adapter_reset_lcp adapter_protocol tr (init c0) false = true.
+Proof. intros. apply bp_no_overrun; auto. intro H0. discriminate H0. Qed.
 
 Lemma event_table_ok : forall e : mevent, event_of e = gen_event_of e.
 Proof. intros [[| |p] [| |q]| |]; reflexivity. Qed.
